@@ -53,7 +53,7 @@ GetOK(S1, r) ==
 (* MultiProgress) performs no terminal operation at all.                                *)
 SilentBar(S0, S1, r) ==
     \/ r.b \in S1.ids /\ ~Visible(S1, r.b) /\ (r.b \in S0.ids => ~Visible(S0, r.b))
-    \/ r.b = 0 /\ S1.mphid /\ r.op \in {"mp_println", "mp_clear", "mp_suspend", "mp_set_alignment", "mp_is_hidden"}
+    \/ r.b = 0 /\ S1.mphid /\ (r.op \in {"mp_println", "mp_clear", "mp_suspend", "mp_set_alignment", "mp_is_hidden"} \/ (r.op = "mp_set_target" /\ S0.mphid))
 
 (* A finished, visible bar whose last handle is dropped stays on the terminal as it  *)
 (* is: what was painted last for it must be the rendering of its final state.        *)
